@@ -19,7 +19,7 @@ theorem frameBody_length (cache : Bytes) (h : HdrInfo) (hc : cache.length ≥ h.
 theorem nextFrame_frame_inv (g : Cfg) (s : S) (total op : Nat) (body : Bytes) (fin r1 : Bool)
     (h : nextFrame g s = .frame total op body fin r1) :
     ∃ hd : HdrInfo, decodeHdr s.cache = some (.ok hd) ∧ sizeCheck g (msgLen s) hd = none ∧ 0 ≤ hd.bodyLen ∧
-      s.cache.length ≥ hd.headLen + hd.bodyLen.toNat ∧ validFrame g hd.opcode hd.fin hd.r1 hd.r2 hd.r3 s.expecting = none ∧
+      s.cache.length ≥ hd.headLen + hd.bodyLen.toNat ∧ validFrame g hd.opcode hd.fin hd.r1 hd.r2 hd.r3 s.k.expecting = none ∧
       total = hd.headLen + hd.bodyLen.toNat ∧ op = hd.opcode ∧ body = frameBody s.cache hd ∧ fin = hd.fin ∧ r1 = hd.r1 := by
   unfold nextFrame at h
   split at h
